@@ -223,6 +223,9 @@ JudgeReload(e, S, O) ==
 Judge(e, P, O) ==
   CASE e.ev = "fit"       -> JudgeFit(e, O)
     [] e.ev = "transform" -> JudgeTransform(e, P, O) \cup JudgeSame(e)
+    \* a frame lacking one of the columns given at fit (kept, dropped or never carved): whether it is refused is not
+    \* judged here (C19 does, for kept features); a restored object must behave like the object it was dumped from
+    [] e.ev = "transform_lacking" -> Flag(O = P, "C07_transform_changed_state") \cup JudgeSame(e)
     [] e.ev = "update"    -> JudgeUpdate(e, P, O)
     [] e.ev = "summary"   -> JudgeSummary(e, P)
     [] e.ev = "badcall"   -> JudgeBadCall(e, P, O)
@@ -235,7 +238,7 @@ Step ==
   /\ LET e == Events[l]  P == objs[e.obj]  O == ObjOf(e.st) IN
        /\ fail' = fail \cup Judge(e, P, O)
        /\ objs' = [objs EXCEPT ![e.obj] = O]
-       /\ outs' = Append(outs, IF e.ev = "transform" THEN [outcome |-> e.outcome, out |-> e.out]
+       /\ outs' = Append(outs, IF e.ev \in {"transform", "transform_lacking"} THEN [outcome |-> e.outcome, out |-> e.out]
                                ELSE [outcome |-> -1, out |-> <<>>])
   /\ l' = l + 1
   /\ UNCHANGED <<tid, done>>
